@@ -123,6 +123,7 @@ def run_once(binary, scen_text, workdir, idx, timeout=60):
     r = Run()
     r.rc, r.out, r.text = rc, out, scen_text
     r.hist, r.final, r.fscan, r.lockbits, r.schedule, r.steps, r.abort = [], {}, {}, {}, [], 0, None
+    r.reval = []
     for ln in out.split("\n"):
         if ln.startswith("H "):
             _, step, rest = ln.split(" ", 2)
@@ -142,6 +143,10 @@ def run_once(binary, scen_text, workdir, idx, timeout=60):
             r.steps = int(ln.split()[1])
         elif ln.startswith("SCHED-ABORT"):
             r.abort = ln
+        elif ln.startswith("REVAL "):
+            m = re.match(r"REVAL (\d+) stale=(\d) nvn=(\d+) args=(.*)$", ln)
+            if m:
+                r.reval.append((int(m.group(1)), m.group(2) == "1", int(m.group(3)), m.group(4).strip()))
     r.done = "DONE" in out
     return r
 
@@ -311,6 +316,36 @@ def check_run(r, scen, want=("lin", "null", "scan", "deadlock", "coherent")):
                             if keys and k < keys[0]:
                                 continue
                         perkey.setdefault(k, []).append((o["inv"], o["res"], "absent", None, ""))
+    if "seen_or_stale" in want:
+        # C06: once a scan and an insert of a new key inside its interval have both completed, the key is in the
+        # scan's result or one of the collected (version, node) pairs is stale
+        inserted = [unhex(o2["args"][1]) for o2 in ops
+                    if o2["kind"] in ("put", "uput") and o2["result"] == "OK" and unhex(o2["args"][1]) not in init]
+        scans_seen = {}
+        for o2 in ops:
+            if o2["kind"] == "scan":
+                m = re.match(r"(\S+) n=(\d+) t=\[(.*?)\] nvn=(\d+)", o2["result"])
+                if m:
+                    keys2 = [unhex(e.split(":")[0]) for e in m.group(3).split()]
+                    scans_seen.setdefault((o2["tid"], " ".join(o2["args"])), []).append((o2, keys2, int(m.group(2))))
+        for (tid, stale, nvn, args) in r.reval:
+            lst = scans_seen.get((tid, args))
+            if not lst:
+                continue
+            o2, keys2, n2 = lst.pop(0)
+            a = o2["args"]
+            l, le, rk, re_, mx, rtl = unhex(a[1]), a[2], unhex(a[3]), a[4], int(a[5]), a[6] == "1"
+            if le == "INF":
+                l = b""
+            limited = (mx != 0 and n2 >= mx)
+            for k in inserted:
+                if not in_range(k, l, le, rk, re_):
+                    continue
+                if limited and (not keys2 or (not rtl and k > keys2[-1]) or (rtl and k < keys2[0])):
+                    continue
+                if k not in keys2 and not stale:
+                    bad.append(("seen_or_stale", "insert of %s completed, the key is not in the scan result %s and every "
+                                "collected (version,node) pair is unchanged" % (k.hex(), [x.hex() for x in keys2])))
     r.lin_jobs = []
     if "lin" in want:
         for k, lst in perkey.items():
